@@ -316,8 +316,24 @@ def raw_option_op(rng):
     return f"add_option {rng.choice(KNOWN_TAGS + [rng.randrange(256)])} {len(data)} {hexs(data)}"
 
 
-def gen_build(rng, n):
+def typed_value_probes():
+    """C04 value clause: every typed tagged-option setter once on a fresh Beacon with members that are all different,
+    directly followed by `show` (deterministic: every seed covers every codec)"""
+    table = ["ssid 6e6574", "supported_rates 2,4,11,22", "extended_supported_rates 12,18,24", "qos_capability 5",
+             "power_capability 3 20", "supported_channels 1:11,36:4", "request_information 000103", "fh_parameter_set 258 3 4 5",
+             "ds_parameter_set 6", "cf_parameter_set 1 2 772 1286", "ibss_parameter_set 258", "ibss_dfs 0a0b0c0d0e0f 7 1:2,3:4",
+             "country 555320 1:11:30,36:4:23", "country 444520 1:13:20", "fh_parameters 2 9", "fh_pattern_table 1 2 3 4 0506",
+             "power_constraint 3", "channel_switch 1 6 9", "quiet 1 2 772 1286", "tpc_report 17 5", "erp_information 4",
+             "bss_load 258 3 1029", "tim 1 2 3 0405", "challenge_text 0102030405", "vendor_specific 0050f2 01020304",
+             "rsn_information 1 78384896 78384896,78384128 78384640 258"]
     ops = []
+    for t in table:
+        ops += ["new", "push Dot11Beacon", f"set 0 {t}", "show"]
+    return ops
+
+
+def gen_build(rng, n):
+    ops = typed_value_probes()
     for _ in range(n):
         ops.append("new")
         k = rng.random()
